@@ -240,64 +240,9 @@ Loop:
 			continue
 		}
 
-		// the queued messages have been sent to redis in bulk,
-		// and the messages are finally assembled and sent to
-		// the client when and only when all the messages have been processed
-
-		// Whether all inMsgQueue messages have been processed
-		if !c.inMsgQueue.AllDone() {
-			continue
-		}
-
-		var bs = make([][]byte, c.inMsgQueue.count)
-		bs = bs[:0]
-		cur := c.inMsgQueue.head
-
-		var curId uint64
-		var curFd = c.fd
-
-		for cur != nil {
-			curId = cur.Id
-			bs = append(bs, cur.RspBody)
-			logging.Debugfunc(func() string { return fmt.Sprintf("[%dm][%dc] got res: %s", cur.Id, c.Fd(), cur.RspBodyString()) })
-			cur = cur.prev
-		}
-
-		for len(bs) > 0 {
-			var r = len(bs)
-			if r >= iovMax {
-				r = iovMax
-			}
-
-			if _, err = c.writev(bs[0:r]); err != nil {
-				logging.Warnf("[%dm][%dc] write to client failed, error: %s, body: %s", cur.Id, c.fd, err, cur.RspBodyString())
-				break
-			}
-			if !c.opened {
-				logging.Warnf("[%dm][%dc] write failed because of client closed", curId, curFd)
-				break
-			}
-			bs = bs[r:]
-		}
-
-		if _, err = c.writev(bs); err != nil {
-			logging.Warnf("[%dm][%dc] write to client failed, error: %s, body: %s", cur.Id, c.fd, err, cur.RspBodyString())
-			continue
-		}
-
-		if !c.opened {
-			logging.Warnf("[%dm][%dc] write failed because of client closed", curId, curFd)
-			continue
-		}
-
-		// release Msg
-		for {
-			msg := c.dequeueInMsg()
-			if msg == nil {
-				break
-			}
-			MsgPool.Put(msg)
-		}
+		// deliver every reply that is complete together with all the replies before it;
+		// requests that are still waiting for their backends do not hold them back
+		el.flushClient(c)
 
 		// Check the status of connection every loop since it might be closed
 		// during writing data back to the peer due to some kind of system error.
@@ -311,6 +256,47 @@ Loop:
 }
 
 const iovMax = 1024
+
+// flushClient writes the replies of the longest completed prefix of the client's request queue to
+// the client, in request order, and releases those requests.
+func (el *eventloop) flushClient(c *conn) {
+	n := 0
+	for cur := c.inMsgQueue.head; cur != nil && cur.Done; cur = cur.prev {
+		n++
+	}
+	if n == 0 {
+		return
+	}
+
+	bs := make([][]byte, 0, n)
+	cur := c.inMsgQueue.head
+	for i := 0; i < n; i++ {
+		bs = append(bs, cur.RspBody)
+		logging.Debugfunc(func() string { return fmt.Sprintf("[%dm][%dc] got res: %s", cur.Id, c.Fd(), cur.RspBodyString()) })
+		cur = cur.prev
+	}
+
+	for len(bs) > 0 {
+		r := len(bs)
+		if r >= iovMax {
+			r = iovMax
+		}
+		if _, err := c.writev(bs[0:r]); err != nil {
+			logging.Warnf("[%dc] write to client failed, error: %s", c.fd, err)
+			return
+		}
+		if !c.opened {
+			logging.Warnf("[%dc] write failed because of client closed", c.fd)
+			return
+		}
+		bs = bs[r:]
+	}
+
+	// release Msg
+	for i := 0; i < n; i++ {
+		MsgPool.Put(c.dequeueInMsg())
+	}
+}
 
 func (el *eventloop) write(c *conn) error {
 	iov := c.outboundBuffer.Peek(-1)
